@@ -8,13 +8,15 @@ from __future__ import annotations
 
 from hypothesis import strategies as st
 
+from vf import model
+
 # ------------------------------------------------------------------ alphabets
 
 ADV_ATOMS = [
     "a", "b", "Z", "1", " ", "  ", "<", ">", "&", '"', "'", "]]>", "<!--", "-->", "&amp;", "&lt;", "&#x41;", "&#65;",
     "<b>", "</b>", "<x/>", "{", "}", "$", "%", "\\", "#", "|", "é", "ß", "😀", "𝔘", "مرحبا", "שלום", "é", " ",
     "‍", "‏", "=", ";", ",", "/", "?", "*", "+", "(", ")", "[", "]", "~", "`", "^", "_", "-", ":", ".", "@", "!",
-    "‘", "’", "“", "”", "<![CDATA[", "&unknown;", "\t", "\n",
+    "‘", "’", "“", "”", "<![CDATA[", "&unknown;", "\t", "\n", "instance(", " instance( ", "pulldata(", "instance('x",
 ]
 PLAIN_ATOMS = ["a", "b", "c", "Q", "x", "1", "2", " ", "é", "-", "_", "."]
 WORDS = ["alpha", "beta", "gamma", "delta", "omega", "sigma", "kappa", "zeta"]
@@ -24,8 +26,18 @@ LANGS = ["English (en)", "French (fr)", "es", "Klingon", "default", "English", "
 NAME_PREFIX = ["q", "a", "x_", "n-", "v.", "é", "_", "Q", "k9", "guidance_hint_", "hint", "label_", "q_guidance_hint", "group_", "repeat_", "meta_", "jr_", "É", "Ö", "À", "Øx", "ÿ"]
 
 
+_INSTANCE_CALL = __import__("re").compile(r"""instance\(\s*("[^"]*"|'[^']*')\s*\)""")
+
+
 def _bad_plain(s: str) -> bool:
-    return "${" in s or "instance(" in s
+    """plain text must not contain what the documentation gives a meaning inside text: a ${reference} or a complete instance('id') call
+    (the bare words 'instance(' are text)"""
+    return "${" in s or bool(_INSTANCE_CALL.search(_straight(s)))
+
+
+def _straight(s: str) -> str:
+    """smart quotes are straightened in survey cells (documented), so they can close a quoted id as well"""
+    return s.replace("‘", "'").replace("’", "'").replace("“", '"').replace("”", '"')
 
 
 @st.composite
@@ -151,6 +163,8 @@ class G:
                     s = s + self.pick(["", " "]) + r
                 else:
                     s = s + " " + r + " " + self.text(tag)
+        if _INSTANCE_CALL.search(_straight(s)):
+            s = s.replace("instance(", "instance (")     # pieces that only together spell a complete instance('id') call
         return s
 
     # -- translated cells
@@ -741,7 +755,26 @@ def build_form(draw, P, g=None):
     form["_langs"] = list(g.langs)
     if P.get("p_reuse_names", 0) and g.p("p_reuse_names"):
         reuse_names(form, g, g.integer(1, 3))
+    if P.get("p_prefixed_names", 0) and g.p("p_prefixed_names"):
+        prefix_names(form, g)
     return form
+
+
+def prefix_names(form, g):
+    """question names may carry a namespace prefix that the settings sheet declares (ex:q1); only names nobody refers to"""
+    blob = "\n".join(_all_strings(form))
+    ns = form.get("settings", {}).get("namespaces", "")
+    if "ex=" in ns:
+        return
+    done = False
+    for n, _ in model.walk(form["nodes"]):
+        nm = n["c"].get("name")
+        if (n["k"] == "q" and nm and ":" not in nm and "trigger" not in n["c"] and ("${%s}" % nm) not in blob and ("#%s}" % nm) not in blob
+                and n["c"].get("type", "").split(" ")[0] in ("text", "integer", "note", "decimal", "date") and g.p("_", 0.4)):
+            n["c"]["name"] = "ex:" + nm
+            done = True
+    if done:
+        form.setdefault("settings", {})["namespaces"] = (ns + " " if ns else "") + 'ex="http://example.com/ex"'
 
 
 def form_strategy(P):
